@@ -619,10 +619,36 @@ impl Gen {
             }
         }).collect()
     }
+    /// an UPDATE for a session: `tag` decides whether its AS_PATH contains AS64999 in a sequence
+    fn upd_tagged(&mut self, four: bool, tag: bool) -> Upd {
+        loop {
+            let mut u = self.upd();
+            u.four = four;
+            if let Some(p) = &mut u.aspath { for s in p.iter_mut() { for a in s.asns.iter_mut() { if *a == TAG || (!four && *a > 65535) { *a = 65001; } } } if p.iter().map(|s| s.asns.len()).sum::<usize>() > 40 { continue; } }
+            if tag {
+                let p = u.aspath.get_or_insert_with(Vec::new);
+                let at = self.rng.below(p.len() as u64 + 1) as usize;
+                let mut asns = vec![TAG]; if self.rng.chance(1, 2) { asns.insert(0, 65002); } if self.rng.chance(1, 2) { asns.push(65003); }
+                p.insert(at, Seg { kind: 2, asns });
+            }
+            return u;
+        }
+    }
+    fn session_ops(&mut self, bmp: bool) -> (Vec<Op>, Vec<Op>) {
+        // composing and writing are meant to happen for different messages: bias one branch towards
+        // setters without write_entry and the other towards write_entry
+        let mut a = self.ops(bmp); let mut b = self.ops(bmp);
+        if self.rng.chance(1, 2) { a.retain(|o| *o != Op::Write); b.push(Op::Write); } else if self.rng.chance(1, 2) { b.retain(|o| *o != Op::Write); a.push(Op::Write); }
+        a.insert(0, Op::LogCustom(7, 7)); b.insert(0, Op::LogCustom(7, 7)); // marker: every message yields one OutputStream update
+        (a, b)
+    }
     fn kind(&mut self) -> Kind { *self.rng.pick(&[Kind::Init, Kind::PeerUp, Kind::PeerDown, Kind::RouteMon, Kind::RouteMon, Kind::RouteMon, Kind::RouteMon, Kind::RouteMon, Kind::Stats, Kind::Term]) }
 }
 
 // ===================================================================== cases
+
+/// the ASN the session scripts branch on (`m.aspath_contains(AS64999)`)
+const TAG: u32 = 64999;
 
 struct Eng { rec: Recorder, p: Probes, rt: Rt }
 
@@ -771,6 +797,83 @@ impl Eng {
         Some(groups)
     }
 
+
+    // ---------------------------------------------------------------- sessions (state surviving from one message to the next)
+
+    fn s_src(unit: &str, a: &[Op], b: &[Op]) -> String {
+        let head = if unit == "bgp" { "filter bgp-in(m: BgpMsg, prov: Provenance) {\n" } else { "filter bmp-in(m: BmpMsg, prov: Provenance) {\n" };
+        format!("{head}  if m.aspath_contains(AS{TAG}) {{\n{}  }} else {{\n{}  }}\n  accept\n}}\n", ops_roto(a, &Self::chain_of(a), "    "), ops_roto(b, &Self::chain_of(b), "    "))
+    }
+    fn tagged(u: Option<&Upd>) -> bool { u.map(|u| spec_hops(u.aspath.as_deref().unwrap_or(&[])).contains(&SHop::Asn(TAG))).unwrap_or(false) }
+
+    /// judge a session: message k's outputs must be those of one call on message k with a new entry
+    fn judge_session(site: &str, groups: &[Vec<(String, Out)>], views: &[Option<&BmpIn>], tags: &[bool], a: &[Op], b: &[Op]) -> String {
+        if groups.len() != views.len() { return format!("fail rotomethods:output-stream:one-update-per-message {site} {} messages, {} OutputStream updates", views.len(), groups.len()); }
+        let fresh = Ent { ts: true, ..Ent::default() };
+        let mut threaded = fresh.clone(); // what a stream shared by the whole session would carry over
+        let mut verdict = "ok".to_string();
+        for (k, g) in groups.iter().enumerate() {
+            let ops = if tags[k] { a } else { b };
+            let got: Vec<Out> = g.iter().map(|x| x.1.clone()).collect();
+            let want = spec_ops(views[k], ops, fresh.clone());
+            let thr = spec_ops(views[k], ops, threaded.clone());
+            let o = judge_ops(site, &got, None, &want);
+            if o != "ok" && verdict == "ok" {
+                let no_ts = |v: &[Out]| -> Vec<Out> { v.iter().map(|o| match o { Out::Entry(e) => Out::Entry(Ent { ts: false, ..e.clone() }), o => o.clone() }).collect() };
+                verdict = if k > 0 && no_ts(&got) != no_ts(&want.0) && no_ts(&got) == no_ts(&thr.0) {
+                    format!("fail rotomethods:entry:leaks-into-next-message {site} message {k} emitted {} where a call on this message alone emits {}", outs_show(&got).replace(' ', ","), outs_show(&want.0).replace(' ', ","))
+                } else { o };
+            }
+            threaded = thr.1;
+        }
+        verdict
+    }
+
+    /// 2-6 UPDATEs through the REAL `Processor::process` loop over one in-memory BGP session
+    fn s_bgp(&mut self, a: &[Op], b: &[Op], msgs: &[Upd]) -> Option<Vec<Vec<(String, Out)>>> {
+        let src = Self::s_src("bgp", a, b);
+        let mut c = match compile(&src) { Ok(c) => c, Err(e) => { self.rec.bump("S.compile-error"); if std::env::var("ROTOMETHODS_DEBUG").is_ok() { eprintln!("{e}\n{src}"); } return None } };
+        let pdus: Option<Vec<UpdateMessage<Bytes>>> = msgs.iter().map(|u| u.msg()).collect();
+        let pdus = pdus?;
+        let f: BgpFunc = c.get_function("bgp-in").unwrap();
+        let col = Arc::new(vr::Collector::default());
+        self.rt.0.block_on(vr::bgp::run_session(Some(f), 7, pdus, col.clone()));
+        let groups = take_os(&col);
+        let tags: Vec<bool> = msgs.iter().map(|u| Self::tagged(Some(u))).collect();
+        let views: Vec<Option<&BmpIn>> = msgs.iter().map(|_| None).collect();
+        let oracle = Self::judge_session("bgp-in", &groups, &views, &tags, a, b);
+        self.rec.bump("S.bgp"); self.rec.bump_by("S.bgp.msgs", msgs.len() as u64);
+        self.rec.case(format!("S|bgp|{};{}|{}", ops_tok(a), ops_tok(b), join(msgs.iter().map(|u| u.tok()), ";")), show_groups(&groups), oracle, Self::ops_nontrivial(a) || Self::ops_nontrivial(b) || tags.iter().any(|t| *t) && tags.iter().any(|t| !*t));
+        Some(groups)
+    }
+
+    /// Initiation, PeerUp, then RouteMonitoring messages as one byte stream through the REAL
+    /// `RouterHandler::read_from_router` (which calls `process_msg` per message)
+    fn s_bmp(&mut self, a: &[Op], b: &[Op], msgs: &[BmpIn]) -> Option<Vec<Vec<(String, Out)>>> {
+        let src = Self::s_src("bmp", a, b);
+        let mut c = match compile(&src) { Ok(c) => c, Err(e) => { self.rec.bump("S.compile-error"); if std::env::var("ROTOMETHODS_DEBUG").is_ok() { eprintln!("{e}\n{src}"); } return None } };
+        if msgs.iter().any(|i| i.kind == Kind::RouteMon && !i.bad && i.upd.msg().is_none()) { return None; }
+        let mut bytes: Vec<u8> = vec![];
+        for i in msgs { bytes.extend_from_slice(&i.bytes()); }
+        let f: BmpFunc = c.get_function("bmp-in").unwrap();
+        let (h, mut agent) = vr::bmp::mk_handler(Some(f), 7);
+        let col = Arc::new(vr::Collector::default());
+        let mut link = agent.create_link();
+        link.set_direct_update_target(col.clone());
+        self.rt.0.block_on(async { tokio::select! { _ = link.connect(false) => {} _ = async { loop { vr::bmp::gate_process(&h).await; } } => {} } });
+        let reg = Arc::new(rotonda::ingress::Register::default());
+        let done = self.rt.0.block_on(async { tokio::time::timeout(std::time::Duration::from_secs(20), rotonda::verif::rotomethods::read_from_router(&h, std::io::Cursor::new(bytes), "10.0.0.5:1790".parse().unwrap(), 7, reg)).await.is_ok() });
+        let groups = take_os(&col);
+        let tags: Vec<bool> = msgs.iter().map(|i| Self::tagged(i.view())).collect();
+        let views: Vec<Option<&BmpIn>> = msgs.iter().map(Some).collect();
+        let mut oracle = Self::judge_session("bmp-in", &groups, &views, &tags, a, b);
+        if !done && oracle == "ok" { oracle = "fail rotomethods:session:read-loop-did-not-end bmp-in".into(); }
+        self.rec.bump("S.bmp"); self.rec.bump_by("S.bmp.msgs", msgs.len() as u64);
+        self.rec.case(format!("S|bmp|{};{}|{}", ops_tok(a), ops_tok(b), join(msgs.iter().map(|i| i.tok()), ";")), show_groups(&groups), oracle, Self::ops_nontrivial(a) || Self::ops_nontrivial(b) || tags.iter().any(|t| *t) && tags.iter().any(|t| !*t));
+        drop(link); drop(agent);
+        Some(groups)
+    }
+
     fn bump_shape(&mut self, u: &Upd) {
         match &u.aspath {
             None => self.rec.bump("path.absent"),
@@ -824,6 +927,11 @@ fn run_line(e: &mut Eng, line: &str) {
             }
         }
         ("L", unit) => { e.l_case(unit, &ops_parse(parts[2]), parts[3]); }
+        ("S", unit) => {
+            let (a, b) = parts[2].split_once(';').unwrap();
+            if unit == "bgp" { let msgs: Vec<Upd> = parts[3].split(';').map(|t| Upd::parse(&kvs(t))).collect(); e.s_bgp(&ops_parse(a), &ops_parse(b), &msgs); }
+            else { let msgs: Vec<BmpIn> = parts[3].split(';').map(|t| BmpIn::parse(&kvs(t))).collect(); e.s_bmp(&ops_parse(a), &ops_parse(b), &msgs); }
+        }
         ("H", "bmp") => e.h_bmp(&ops_parse(parts[2]), &BmpIn::parse(&kvs(parts[3]))),
         ("H", _) => { let (a, w) = parts[2].split_once(';').unwrap(); e.h_rib(&ops_parse(a), &ops_parse(w), &Upd::parse(&kvs(parts[3]))); }
         _ => {}
@@ -834,7 +942,7 @@ fn main() {
     let args = parse_args();
     if std::env::var("ROTOMETHODS_DEBUG").is_err() { std::panic::set_hook(Box::new(|_| {})); }
     let t0 = Instant::now();
-    let rec = Recorder::new("T: the method table registered by create_runtime; M: every value method of BgpMsg / BmpMsg / Route called from a real compiled roto filter (or roto function for methods with a LargeCommunity / Asn argument) on one generated UPDATE (all AS_PATH segment kinds incl. empty and >255-ASN paths, 2- and 4-octet sessions, standard / large / extended communities, conventional + MP NLRI of 4 families, End-of-RIB), BMP message kinds incl. a RouteMonitoring whose PDU does not parse; non-trivial = the UPDATE in view has a multi-segment or non-sequence AS_PATH, MP NLRI or communities; L: one call of a generated sequence of Log / LogEntry method calls (setters chained or not, custom text, write_entry, log_custom) compiled by the real runtime, on a fresh stream (drained outputs + the pending entry); H: the same scripts installed in the real bmp-in RouterHandler / RIB unit (one Bulk of all routes of the UPDATE), observation = the records of every Update::OutputStream at the gate; non-trivial (L/H) = at least one write_entry and one setter; distinct = distinct case lines");
+    let rec = Recorder::new("T: the method table registered by create_runtime; M: every value method of BgpMsg / BmpMsg / Route called from a real compiled roto filter (or roto function for methods with a LargeCommunity / Asn argument) on one generated UPDATE (all AS_PATH segment kinds incl. empty and >255-ASN paths, 2- and 4-octet sessions, standard / large / extended communities, conventional + MP NLRI of 4 families, End-of-RIB), BMP message kinds incl. a RouteMonitoring whose PDU does not parse; non-trivial = the UPDATE in view has a multi-segment or non-sequence AS_PATH, MP NLRI or communities; L: one call of a generated sequence of Log / LogEntry method calls (setters chained or not, custom text, write_entry, log_custom) compiled by the real runtime, on a fresh stream (drained outputs + the pending entry); S: a script `if m.aspath_contains(AS64999) { A } else { B }` over a session of 2-6 UPDATEs through the real bgp-in Processor::process loop / of Initiation, PeerUp and 2-6 RouteMonitoring messages through the real bmp-in RouterHandler::read_from_router (one byte stream), observation = the OutputStream update of every message; H: the same scripts installed in the real bmp-in RouterHandler / RIB unit (one Bulk of all routes of the UPDATE), observation = the records of every Update::OutputStream at the gate; non-trivial (L/H) = at least one write_entry and one setter; distinct = distinct case lines");
     let rt0 = Rt::new();
     let handle = rt0.0.handle().clone();
     let _guard = handle.enter(); // Gate's Drop spawns a task
@@ -873,7 +981,26 @@ fn main() {
     let leaked = got.as_ref().map(|g| g.iter().flatten().any(|(_, o)| matches!(o, Out::Entry(x) if x.cs.is_some()))).unwrap_or(false);
     e.rec.variant("rib_stream", if leaked { "per-update" } else { "per-route" });
 
+    // sessions: message 1 (tagged) composes "x" without writing, message 2 (untagged) only writes
+    let marker = Op::LogCustom(7, 7);
+    let tagged = Upd { aspath: Some(vec![seq(&[65000, TAG])]), reach: vec![1], ..Upd::default() };
+    let plain = Upd { aspath: Some(vec![seq(&[65000, 200])]), reach: vec![2], ..Upd::default() };
+    let leak_in = |g: &Option<Vec<Vec<(String, Out)>>>| g.as_ref().map(|g| g.iter().skip(1).flatten().any(|(_, o)| matches!(o, Out::Entry(x) if x.cs.is_some()))).unwrap_or(false);
+    let g1 = e.s_bgp(&[marker.clone(), Op::Custom("x".into())], &[marker.clone(), Op::Write], &[tagged.clone(), plain.clone()]);
+    let bmp_sess = |us: &[&Upd]| -> Vec<BmpIn> { let mut v = vec![BmpIn { kind: Kind::Init, pph_asn: 0, bad: false, upd: Upd::default() }, BmpIn { kind: Kind::PeerUp, pph_asn: 65000, bad: false, upd: Upd::default() }]; for u in us { v.push(BmpIn { kind: Kind::RouteMon, pph_asn: 65000, bad: false, upd: (*u).clone() }); } v };
+    let g2 = e.s_bmp(&[marker.clone(), Op::Custom("x".into())], &[marker.clone(), Op::Write], &bmp_sess(&[&tagged, &plain]));
+    e.rec.variant("msg_stream", if leak_in(&g1) || leak_in(&g2) { "per-session" } else { "per-message" });
+
     let mut g = Gen { rng: Rng::new(args.seed) };
+    let ns = if args.thorough { 1500 } else { 240 };
+    for k in 0..ns {
+        let bmp = k % 2 == 1;
+        let (a, b) = g.session_ops(bmp);
+        let four = !g.rng.chance(1, 4);
+        let n = g.rng.range(2, 6);
+        let us: Vec<Upd> = (0..n).map(|_| { let t = g.rng.chance(1, 2); g.upd_tagged(four, t) }).collect();
+        if bmp { let mut v = bmp_sess(&us.iter().collect::<Vec<_>>()); for i in v.iter_mut() { i.upd.four = four; } e.s_bmp(&a, &b, &v); } else { e.s_bgp(&a, &b, &us); }
+    }
     let nl = if args.thorough { 6000 } else { 900 };
     for k in 0..nl {
         let u = g.upd();
